@@ -270,6 +270,45 @@ Section Agree.
     rewrite keep_trailer_app, keep_trailer_prev, app_nil_r. reflexivity.
   Qed.
 
+  (* ---------- a hybrid section: a classic table whose trailer points to an xref stream ---------- *)
+  Definition xrefstm_entry (so : Z) : list (bytes * value) := [(k_XRefStm, VInt so)].
+
+  Definition hybrid_image (f : bytes) (hdr : nat) (o : Z) (subs : list subsection) (so : Z) (ssubs : list stmsub)
+             (tr : trailer) (prev : option Z) : Prop :=
+    (exists d, keep_trailer d = [] /\ stream_image f hdr so ssubs d None) /\
+    exists e0 rsubs e1 cd rest,
+      subs = map rsub_subsection rsubs /\ forallb rsub_ok rsubs = true /\ clean_tr tr /\
+      at_off f hdr o = render_table e0 rsubs e1
+                       ++ fst (rv (VDict (tr ++ xrefstm_entry so ++ prev_entry prev)) cd) ++ rest.
+
+  Lemma bread_hybrid_section f hdr o subs so ssubs tr prev seen m :
+    hybrid_image f hdr o subs so ssubs tr prev ->
+    let allow := match prev with None => true | Some _ => false end in
+    exists t', bread_section parse_value f hdr o seen m
+               = (if zmem so seen then Ok (apply_table_subs m allow false subs, seen, t', prev)
+                  else Ok (apply_table_subs (apply_stm_subs m ssubs) allow false subs, so :: seen, t', prev))
+               /\ keep_trailer t' = keep_trailer tr.
+  Proof.
+    intros [(d & _ & Hstm) (e0 & rsubs & e1 & cd & rest & -> & Hok & Hclean & Himg)] allow.
+    destruct Hclean as [HcP HcX].
+    unfold bread_section. rewrite Himg, is_xref_render_table.
+    rewrite read_xref_table_render by (auto using rv_dict_stops).
+    rewrite Hparse.
+    assert (HX : dict_get (tr ++ xrefstm_entry so ++ prev_entry prev) k_XRefStm = Some (VInt so)).
+    { rewrite dict_get_app, HcX. reflexivity. }
+    assert (HP : dict_int (tr ++ xrefstm_entry so ++ prev_entry prev) k_Prev = Ok prev).
+    { unfold dict_int. rewrite dict_get_app, HcP. cbn [xrefstm_entry app dict_get].
+      change (bytes_eqb k_XRefStm k_Prev) with false. cbv beta iota. destruct prev; reflexivity. }
+    rewrite HX.
+    exists (tr ++ xrefstm_entry so ++ prev_entry prev).
+    split.
+    - destruct (zmem so seen).
+      + rewrite HP. rewrite read_xref_table_render by (auto using rv_dict_stops). rewrite Hparse, HP. reflexivity.
+      + destruct (bread_stream_image f hdr so ssubs d None m Hstm) as [Hb _]. rewrite Hb.
+        rewrite HP. rewrite read_xref_table_render by (auto using rv_dict_stops). rewrite Hparse, HP. reflexivity.
+    - rewrite !keep_trailer_app, keep_trailer_prev, app_nil_r. cbn. try rewrite app_nil_r. reflexivity.
+  Qed.
+
   (* ---------- the loop ---------- *)
   Definition sec_agree (f : bytes) (hdr : nat) (lay : layout) : Prop :=
     forall o seen m m' seen' t prev,
@@ -291,12 +330,12 @@ Section Agree.
     destruct (prev_ok size p); [|exact H]. apply IH. exact H.
   Qed.
 
-  (* ---------- chains without hybrid sections ---------- *)
+  (* ---------- chains ---------- *)
   Definition rsec_image (f : bytes) (hdr : nat) (r : rsec) (prev : option Z) : Prop :=
     match r with
     | RTable o subs tr => table_image f hdr o subs tr prev
     | RStream o subs d => stream_image f hdr o subs d prev
-    | RHybrid _ _ _ _ _ => False
+    | RHybrid o subs so ssubs tr => hybrid_image f hdr o subs so ssubs tr prev
     end.
   Fixpoint chain_image (f : bytes) (hdr : nat) (c : chain) : Prop :=
     match c with
@@ -304,33 +343,88 @@ Section Agree.
     | r :: rest => rsec_image f hdr r (prev_of rest) /\ chain_image f hdr rest
     end.
 
-  Lemma chain_sec_at f hdr : forall c o sec,
-    chain_image f hdr c -> sec_at (layout_of c) o = Some sec ->
-    exists r prev, rsec_image f hdr r prev /\ o = rsec_off r /\
-      match r with
-      | RTable _ subs tr => sec = STable {| t_subs := subs; t_trailer := tr; t_prev := prev; t_xrefstm := None |}
-      | RStream _ subs d => sec = SStream {| s_subs := subs; s_trailer := d; s_prev := prev |}
-      | RHybrid _ _ _ _ _ => False
-      end.
+  Lemma sec_at_layout_mem : forall c z sec, sec_at (layout_of c) z = Some sec -> In z (flat_map rsec_offsets c).
   Proof.
-    induction c as [|r rest IH]; intros o sec Hc Hs; [discriminate|].
-    destruct Hc as [Hr Hrest]. cbn [layout_of] in Hs. rewrite sec_at_app in Hs.
-    destruct (sec_at (rsec_layout r (prev_of rest)) o) as [s0|] eqn:E.
-    - inversion Hs; subst s0. exists r, (prev_of rest). split; [exact Hr|].
-      destruct r as [o' subs tr|o' subs d|]; cbn [rsec_layout sec_at rsec_off] in *; try contradiction;
-        (destruct (Z.eqb_spec o' o); [|discriminate]); inversion E; subst; split; reflexivity.
-    - eapply IH; eauto.
+    induction c as [|r rest IH]; intros z sec H; [discriminate|].
+    cbn [layout_of flat_map] in *. rewrite sec_at_app in H. apply in_or_app.
+    destruct (sec_at (rsec_layout r (prev_of rest)) z) as [s0|] eqn:E; [left|right; eapply IH; eauto].
+    destruct r as [o subs tr|o subs d|o subs so ssubs tr]; cbn [rsec_layout sec_at rsec_offsets In] in *.
+    - destruct (Z.eqb_spec o z); [auto|discriminate].
+    - destruct (Z.eqb_spec o z); [auto|discriminate].
+    - destruct (Z.eqb_spec o z); [auto|]. destruct (Z.eqb_spec so z); [auto|discriminate].
   Qed.
 
-  Lemma chain_sec_agree f hdr c : chain_image f hdr c -> sec_agree f hdr (layout_of c).
+  Lemma sec_at_rsec_none r prev z : ~ In z (rsec_offsets r) -> sec_at (rsec_layout r prev) z = None.
   Proof.
-    intros Hc o seen m m' seen' t prev H. unfold read_section in H.
+    destruct r as [o subs tr|o subs d|o subs so ssubs tr]; cbn [rsec_layout sec_at rsec_offsets In]; intros H.
+    - destruct (Z.eqb_spec o z); [tauto|reflexivity].
+    - destruct (Z.eqb_spec o z); [tauto|reflexivity].
+    - destruct (Z.eqb_spec o z); [tauto|]. destruct (Z.eqb_spec so z); [tauto|reflexivity].
+  Qed.
+
+  (* what lies at an offset of the layout: the main section of a chain element, or the stream
+     of a hybrid element *)
+  Definition sec_of (c : chain) (r : rsec) (prev : option Z) (o : Z) (sec : section) : Prop :=
+    match r with
+    | RTable o' subs tr => o = o' /\ sec = STable {| t_subs := subs; t_trailer := tr; t_prev := prev; t_xrefstm := None |}
+    | RStream o' subs d => o = o' /\ sec = SStream {| s_subs := subs; s_trailer := d; s_prev := prev |}
+    | RHybrid o' subs so ssubs tr =>
+      (o = o' /\ sec = STable {| t_subs := subs; t_trailer := tr; t_prev := prev; t_xrefstm := Some so |}
+       /\ sec_at (layout_of c) so = Some (SStream {| s_subs := ssubs; s_trailer := []; s_prev := None |}))
+      \/ (o = so /\ sec = SStream {| s_subs := ssubs; s_trailer := []; s_prev := None |})
+    end.
+
+  Lemma chain_sec_at f hdr : forall c o sec,
+    chain_image f hdr c -> znodupb (flat_map rsec_offsets c) = true -> sec_at (layout_of c) o = Some sec ->
+    exists r prev, rsec_image f hdr r prev /\ sec_of c r prev o sec.
+  Proof.
+    induction c as [|r rest IH]; intros o sec Hc Hnd Hs; [discriminate|].
+    destruct Hc as [Hr Hrest]. cbn [layout_of flat_map] in Hs, Hnd.
+    apply znodupb_app in Hnd as (Hndr & Hndrest & Hdisj).
+    rewrite sec_at_app in Hs.
+    destruct (sec_at (rsec_layout r (prev_of rest)) o) as [s0|] eqn:E.
+    - inversion Hs; subst s0. exists r, (prev_of rest). split; [exact Hr|].
+      destruct r as [o' subs tr|o' subs d|o' subs so ssubs tr]; cbn [rsec_layout sec_at rsec_offsets sec_of] in *.
+      + destruct (Z.eqb_spec o' o); [|discriminate]. inversion E; subst. split; reflexivity.
+      + destruct (Z.eqb_spec o' o); [|discriminate]. inversion E; subst. split; reflexivity.
+      + cbn [znodupb zmem] in Hndr. rewrite orb_false_r in Hndr. apply andb_true_iff in Hndr as [Hne _].
+        apply negb_true_iff in Hne. cbn [layout_of rsec_layout app sec_at].
+        destruct (Z.eqb_spec o' o).
+        * inversion E; subst. left. split; [reflexivity|]. split; [reflexivity|].
+          rewrite Hne. rewrite Z.eqb_refl. reflexivity.
+        * destruct (Z.eqb_spec so o); [|discriminate]. inversion E; subst. right. split; reflexivity.
+    - destruct (IH o sec Hrest Hndrest Hs) as (r' & p' & Himg & Hsec). exists r', p'. split; [exact Himg|].
+      destruct r' as [o' subs tr|o' subs d|o' subs so ssubs tr]; cbn [sec_of] in *; try exact Hsec.
+      destruct Hsec as [(-> & -> & Hso)|Hsec]; [left|right; exact Hsec].
+      split; [reflexivity|]. split; [reflexivity|].
+      cbn [layout_of]. rewrite sec_at_app.
+      rewrite sec_at_rsec_none; [exact Hso|].
+      intros Hin. apply (Hdisj so Hin). eapply sec_at_layout_mem. exact Hso.
+  Qed.
+
+  Lemma chain_sec_agree f hdr c :
+    chain_image f hdr c -> znodupb (flat_map rsec_offsets c) = true -> sec_agree f hdr (layout_of c).
+  Proof.
+    intros Hc Hnd o seen m m' seen' t prev H. unfold read_section in H.
     destruct (sec_at (layout_of c) o) as [sec|] eqn:E; [|discriminate].
-    destruct (chain_sec_at f hdr c o sec Hc E) as (r & p & Himg & -> & Hsec).
-    destruct r as [o' subs tr|o' subs d|]; cbn [rsec_image rsec_off] in *; try contradiction; subst sec;
-      cbn [t_subs t_prev t_xrefstm t_trailer s_subs s_trailer s_prev negb] in H; inversion H; subst.
-    - apply bread_table_section. exact Himg.
-    - apply bread_stream_section. exact Himg.
+    destruct (chain_sec_at f hdr c o sec Hc Hnd E) as (r & p & Himg & Hsec).
+    destruct r as [o' subs tr|o' subs d|o' subs so ssubs tr]; cbn [rsec_image sec_of] in *.
+    - destruct Hsec as [-> ->]. cbn [t_subs t_prev t_xrefstm t_trailer negb] in H. inversion H; subst.
+      apply bread_table_section. exact Himg.
+    - destruct Hsec as [-> ->]. cbn [s_subs s_trailer s_prev] in H. inversion H; subst.
+      apply bread_stream_section. exact Himg.
+    - destruct Hsec as [(-> & -> & Hso)|[-> ->]].
+      + cbn [t_subs t_prev t_xrefstm t_trailer negb] in H.
+        destruct (bread_hybrid_section f hdr o' subs so ssubs tr p seen m Himg) as (t' & Hb & Hk).
+        exists t'. split; [|].
+        * rewrite Hb. destruct (zmem so seen); [inversion H; subst; reflexivity|].
+          rewrite Hso in H. cbn [s_subs] in H. inversion H; subst. reflexivity.
+        * rewrite Hk. destruct (zmem so seen); [inversion H; subst; reflexivity|].
+          rewrite Hso in H. inversion H; subst. reflexivity.
+      + cbn [s_subs s_trailer s_prev] in H. injection H as <- <- <- <-.
+        destruct Himg as [(d & Hkd & Hstm) _].
+        destruct (bread_stream_section f hdr so ssubs d None seen m Hstm) as (t' & Hb & Hk).
+        exists t'. split; [exact Hb|]. rewrite Hk, Hkd. reflexivity.
   Qed.
 
   Lemma bread_loop_fuel f hdr size : forall fuel start seen m tr r,
